@@ -42,6 +42,8 @@ fn responder_step(mgr: &ResourceRecordManager, d: &[u8]) -> Option<Vec<u8>> {
 }
 
 fn hostile_name(r: &mut Rng) -> Name<'static> {
+    // one in eight: the longest legal name (255 octets on the wire)
+    if r.chance(1, 8) { return mk_name(&[vec![b'm'; 63], vec![b'n'; 63], vec![b'o'; 63], vec![b'p'; 55], b"local".to_vec()]); }
     let k = r.range(1, 3) as usize;
     let mut ls: Vec<Vec<u8>> = (0..k).map(|_| match r.below(4) { 0 => vec![0xFF, 0xFE], 1 => vec![b'a'; 63], 2 => b"x.y\\z".to_vec(), _ => b"srv".to_vec() }).collect();
     ls.push(b"local".to_vec());
@@ -87,7 +89,9 @@ pub fn c14(tier: &str, seed: u64) -> Vec<Case> {
                     1 => RData::SRV(simple_dns::rdata::SRV { priority: 0, weight: 0, port: r.next() as u16, target: if r.chance(1, 2) { iname.clone() } else { hostile_name(&mut r) } }),
                     2 => RData::A(A { address: r.next() as u32 }),
                     3 => RData::AAAA(simple_dns::rdata::AAAA { address: r.int(128) }),
-                    4 => { let mut t = simple_dns::rdata::TXT::new(); for _ in 0..r.below(3) { let l = r.below(6) as usize; t.add_char_string(crate::gen::mk_cs(&r.bytes(l))); } RData::TXT(t) }
+                    4 => { let mut t = simple_dns::rdata::TXT::new(); for _ in 0..r.below(3) { let l = r.below(6) as usize; t.add_char_string(crate::gen::mk_cs(&r.bytes(l))); }
+                           if r.chance(1, 2) { t.add_char_string(crate::gen::mk_cs(*r.pick(&[&b"k\xff=1"[..], b"\xff=1", b"\xff\xfe=", b"a\xc3=b", b"=\xff", b"k=\xff", b"\xe2\x82=x"]))); }
+                           RData::TXT(t) }
                     _ => g.rr_of(*r.pick(&[10usize, 16, 38, 40])).rdata,
                 };
                 let owner = if matches!(rd, RData::PTR(_)) { mk_name(&service) } else { iname.clone() };
@@ -244,6 +248,8 @@ pub fn c14(tier: &str, seed: u64) -> Vec<Case> {
                     }
                 }
                 let cached: Vec<String> = store.get_domain_resources(&sname, DomainResourceFilter::cached()).flatten().map(text::rr).collect();
+                // what `get_known_services` does with the store afterwards (on the application's thread)
+                let _known: Vec<InstanceInformation> = store.get_domain_resources(&sname, DomainResourceFilter::cached()).filter_map(|rs| instance_from_records(&sname, rs)).collect();
                 (reply, sorted(cached))
             }));
             let out = match &res { Ok((b, cached)) => format!("ok {} cached {}", reply_text(b), cached), Err(_) => "panic".to_string() };
@@ -562,6 +568,33 @@ fn live_resolver(tier: &str, seed: u64) -> Case {
         Err(_) => { c = c.fail("resolver-wedged", format!("query_service_address did not return within 8 s of a 0.9 s timeout ({} hostile datagrams)", n)); return c; }
     }
     let _ = handle.join();
+    // the address-and-port query: an SRV answer with the address in the additional section, after a
+    // response that carries the SRV record only (the resolver then asks for the address itself)
+    if let Ok(mut resolver) = OneShotMdnsResolver::new() {
+        resolver.set_query_timeout(Duration::from_millis(900));
+        let (tx, rx) = std::sync::mpsc::channel();
+        let h2 = std::thread::spawn(move || {
+            let r = std::panic::catch_unwind(std::panic::AssertUnwindSafe(|| resolver.query_service_address_and_port("verif-res14p._tcp.local")));
+            let _ = tx.send(match r { Ok(Ok(a)) => format!("ok {:?}", a), Ok(Err(_)) => "err".to_string(), Err(_) => "panic".to_string() });
+        });
+        std::thread::sleep(Duration::from_millis(150));
+        let pname = Name::new_unchecked("verif-res14p._tcp.local");
+        let srv = ResourceRecord::new(pname.clone(), CLASS::IN, 5, RData::SRV(simple_dns::rdata::SRV { priority: 0, weight: 0, port: 8555, target: pname.clone() }));
+        let mut only_srv = Packet::new_reply(0);
+        only_srv.answers.push(ResourceRecord::new(hostile_name(&mut Rng::new(seed ^ 7)), CLASS::IN, 5, RData::A(A { address: 3 })));
+        let _ = sock.send_to(&only_srv.build_bytes_vec_compressed().unwrap(), dest);
+        let mut full = Packet::new_reply(0);
+        full.answers.push(srv);
+        full.additional_records.push(ResourceRecord::new(pname.clone(), CLASS::IN, 5, RData::A(A { address: 0x7F000009 })));
+        let _ = sock.send_to(&full.build_bytes_vec_compressed().unwrap(), dest);
+        match rx.recv_timeout(Duration::from_secs(8)) {
+            Ok(s) if s == "panic" => { c = c.fail("resolver-panic", "query_service_address_and_port panicked".into()); }
+            Ok(s) if s.starts_with("ok Some") => { c = c.tag("resolver-port-answered"); if s != "ok Some(127.0.0.9:8555)" { c = c.fail("resolver-answer", format!("answered {} for SRV port 8555 at 127.0.0.9", s)); } }
+            Ok(_) => { c = c.tag("resolver-port-no-answer"); }
+            Err(_) => { c = c.fail("resolver-wedged", "query_service_address_and_port did not return within 8 s of a 0.9 s timeout".into()); return c; }
+        }
+        let _ = h2.join();
+    }
     c
 }
 
@@ -736,7 +769,7 @@ pub fn c15(tier: &str, seed: u64) -> Vec<Case> {
             for _ in 0..r.below(4) {
                 let key = if r.chance(1, 30) { String::new() } else { r.pick(&["path", "v", "é", "k k", "a;b"]).to_string() };
                 has_empty_key |= key.is_empty();
-                let val = match r.below(3) { 0 => None, 1 => Some(String::new()), _ => Some(r.pick(&["1", "=x=", "ü", "a b"]).to_string()) };
+                let val = match r.below(16) { 0..=4 => None, 5..=9 => Some(String::new()), 15 if !key.is_empty() => Some("v".repeat(254 - key.len() - r.below(2) as usize)), _ => Some(r.pick(&["1", "=x=", "ü", "a b"]).to_string()) };
                 inst = inst.with_attribute(key, val);
             }
             let full = Name::new(&format!("{}.{}", inst.escaped_instance_name(), "_verif._tcp.local")).unwrap().into_owned();
